@@ -148,4 +148,84 @@ theorem rel_install {c : CW} {s : WS} (hi : Inv c) (hb : Bounds c) (hr : Rel c s
         have hne : h ≠ e := fun e' => hem (e' ▸ hm)
         exact ⟨h, hm, (hvalid h hne).symm.trans hv, ho⟩
 
+/-- a reserved handle `e` is installed and owns a row of `w'`, its create command leaves the buffers -/
+theorem installed_refines {w : WM} {iss : List Handle} {s : WS} (hi : Inv ⟨w, iss⟩) (hb : Bounds ⟨w, iss⟩)
+    (hr : Rel ⟨w, iss⟩ s) {w' : WM} {e : Handle} {k ai : Nat} {vals : List Val}
+    (hk : iss[k]? = some e) (hpe : e ∈ createHandles w.buffers)
+    (htab : tabOf w' = (tabOf w).install e) (hs : Step w w' e.id) (ho : Owns w' e ai vals)
+    (hsh' : SharedPooled w') (hcl' : Mustache.Model.ArchsClosed w'.deps w'.archs)
+    (hwid : w'.worldId = w.worldId) (hdeps : w'.deps = w.deps) (hpool : w'.pool = w.pool)
+    (hni : w'.nextInst = w.nextInst) (hld : w'.lockDepth = w.lockDepth) (hnt : w'.nthreads = w.nthreads)
+    (hmk : w'.marked = w.marked) (hcov : w'.slots.length ≤ w'.locs.length) (hb' : Bounds ⟨w', iss⟩)
+    (hperm : (createHandles w.buffers).Perm (e :: createHandles w'.buffers))
+    (hblen : w'.buffers.length = w.buffers.length)
+    (hbsub : ∀ x ∈ w'.buffers, ∀ cmd ∈ x, ∃ y ∈ w.buffers, cmd ∈ y)
+    (sb' : List (List SCmd)) (hbrel : All2 (All2 (cmdRel iss w.pool)) w'.buffers sb')
+    (x : SEnt) (hx : optRel (some x) (absEnt w' e)) :
+    Inv ⟨w', iss⟩ ∧ Rel ⟨w', iss⟩ { s.setEnt k (some x) with buffers := sb' } := by
+  rcases hi.tinv with ⟨g, tinv, hiss, hpend⟩
+  have hp : e ∈ g.pending := (hpend e).mpr hpe
+  have htinv' : TInv (tabOf w') (g.install e) := htab ▸ Mustache.Proofs.IdTable.install_inv tinv hp
+  have hnd' : (e :: createHandles w'.buffers).Nodup := hperm.nodup_iff.mp hi.pendNodup
+  have hsub : ∀ h ∈ createHandles w'.buffers, h ∈ createHandles w.buffers := fun h hh =>
+    hperm.mem_iff.mpr (List.mem_cons_of_mem _ hh)
+  have hld0 : 0 < w.lockDepth := by
+    rcases Nat.eq_zero_or_pos w.lockDepth with h0 | h0
+    · rw [createHandles_of_empty (hi.bufEmpty h0)] at hpe; cases hpe
+    · exact h0
+  have hinv' : Inv ⟨w', iss⟩ :=
+    { tinv := ⟨g.install e, htinv', hiss, fun y => by
+        show y ∈ g.pending.filter (· ≠ e) ↔ y ∈ createHandles w'.buffers
+        rw [List.mem_filter, hpend y, hperm.mem_iff, List.mem_cons]
+        constructor
+        · rintro ⟨h1 | h1, h2⟩
+          · exact absurd h1 (by simpa using h2)
+          · exact h1
+        · intro h1
+          refine ⟨Or.inr h1, ?_⟩
+          have : y ≠ e := fun he => (List.nodup_cons.mp hnd').1 (he ▸ h1)
+          simpa using this⟩
+      pendNodup := (List.nodup_cons.mp hnd').2
+      rows := hs.ok, keys := hs.keys hi.keys, live := liveInv_owns hs hi.rows hi.live ho
+      pool := by
+        constructor
+        · rw [hpool]; exact hi.pool.vals_nodup
+        · rw [hpool]; exact hi.pool.insts_nodup
+        · rw [hpool, hni]; exact hi.pool.inst_lt
+        · rw [hpool]; exact hi.pool.inst_sid
+      shared := hsh', closed := hcl'
+      depsB := by show DepsBounded w'.deps; rw [hdeps]; exact hi.depsB
+      locsCover := hcov
+      bufLe := by show w'.buffers.length ≤ w'.nthreads; rw [hblen, hnt]; exact hi.bufLe
+      bufLen := by
+        intro _
+        show w'.buffers.length = w'.nthreads
+        rw [hblen, hnt]; exact hi.bufLen hld0
+      bufEmpty := by
+        intro h0
+        have : w'.lockDepth = 0 := h0
+        omega
+      bufKnown := by
+        intro b hb1 cmd hc
+        rcases hbsub b hb1 cmd hc with ⟨y, hy, hcy⟩
+        refine ⟨(hi.bufKnown y hy cmd hcy).1.mono hwid (fun _ h => h), ?_⟩
+        show cmdOk w'.pool cmd
+        rw [hpool]; exact (hi.bufKnown y hy cmd hcy).2
+      markedKnown := by
+        show ∀ y ∈ w'.marked, Known ⟨w', iss⟩ y ∧ y ∉ createHandles w'.buffers
+        rw [hmk]
+        intro y hy
+        exact ⟨(hi.markedKnown y hy).1.mono hwid (fun _ h => h), fun hc => (hi.markedKnown y hy).2 (hsub y hc)⟩
+      markedRange := by show ∀ y ∈ w'.marked, HRange w'.worldId y; rw [hmk, hwid]; exact hi.markedRange
+      markedSorted := by show w'.marked.Pairwise _; rw [hmk]; exact hi.markedSorted }
+  refine ⟨hinv', ?_⟩
+  have hvalid : ∀ y, y ≠ e → w'.isValid y = w.isValid y := by
+    intro y hne
+    rw [Bool.eq_iff_iff, valid_iff_ghost htinv' (Nat.le_of_lt hb'.inRange) y,
+      valid_iff_ghost tinv (Nat.le_of_lt hb.inRange) y]
+    show y ∈ e :: g.live ↔ _
+    rw [List.mem_cons]
+    exact ⟨fun hh => hh.resolve_left hne, Or.inr⟩
+  exact rel_install (c := ⟨w, iss⟩) hi hb hr hk hpe hs.frame hvalid hpool hdeps hld sb' hbrel hsub hmk hnt (some x) hx
+
 end Mustache.Proofs.Refine
